@@ -409,9 +409,12 @@ def handleMisc : Handler := fun cfg m l =>
   else
     handleAdditionalCases cfg m l (if isDiffHeader m.st then m.st else .diffHeader .unified)
 
+/-- `handle_submodule_log_line`: the file section before the log may still wait for its header (mode-only
+change, empty or binary file): `paint_buffered_minus_and_plus_lines(); handle_pending_line_with_diff_name()?`
+come first, in the state the line is met in, as at the top of `handle_diff_header_diff_line`. -/
 def handleSubmoduleLog : Handler := fun cfg m l =>
   if !startsWith l.text Markers.submoduleLog then .ok (false, m)
-  else handleAdditionalCases cfg m l .submoduleLog
+  else handleAdditionalCases cfg (pendingDiffName cfg (flushMP m)) l .submoduleLog
 
 def isHunkHeader : State → Bool
   | .hunkHeader .. => true
